@@ -1,20 +1,36 @@
 (* C15 — Reference names are validated like git; sanitizing always yields a valid name.
    Only statements here; every proof is [exact <lemma of ProofsTop.v>].
    Model.v : gix-validate tag::name_inner (both modes), reference::{validate, name, name_partial,
-             name_partial_or_sanitize}, gix_ref::PartialName::join — the code as of the two `fix:`
-             commits recorded in findings.txt.
+             name_partial_or_sanitize}, gix_ref::PartialName::join — the code as of the `fix:` commit
+             recorded in findings.txt (sanitiser panic repaired; the name "@" is still accepted, a
+             known finding pinned by gix-validate's own test suite).
    Spec.v  : refs.c check_refname_component / check_refname_format (git 2.39), refname_is_safe's
              one-level rule.  [git_check s allow] = `git check-ref-format [--allow-onelevel] s` exits 0;
              [git_full_name s] = git_check s false || (git_check s true && one_level_safe s).
-   [is_ok o] = the call returned Ok.  All statements quantify over ALL byte strings. *)
+   [is_ok o] = the call returned Ok.  [standalone_at s] = the name is exactly "@" (the known class).
+   All statements quantify over ALL byte strings. *)
 From GixV.Base Require Import Bytes BytesFacts Outcome.
 From GixV.C15 Require Import Model Spec ProofsValid ProofsTop.
 
-(* partial names: accepted exactly when `git check-ref-format --allow-onelevel` accepts *)
-Theorem partial_name_is_git : forall s, is_ok (ref_name_partial s) = git_check s true.
-Proof. exact L_partial_name_is_git. Qed.
+(* ---- partial names vs `git check-ref-format --allow-onelevel` ------------------------------- *)
+Definition partial_name_is_git_full_statement : Prop :=
+  forall s, is_ok (ref_name_partial s) = git_check s true.
 
-(* full names: git's verdict, one-level names judged by git's one-level rule (A-Z and '_' only) *)
+(* false of the code: "@" *)
+Theorem partial_name_is_git_refuted : exists s, is_ok (ref_name_partial s) <> git_check s true.
+Proof. exact L_partial_name_is_git_refuted. Qed.
+
+(* true of every other byte string *)
+Theorem partial_name_is_git_except_known : forall s, standalone_at s = false ->
+  is_ok (ref_name_partial s) = git_check s true.
+Proof. exact L_partial_name_is_git_except_known. Qed.
+
+(* both at once, exactly: gix accepts what git accepts, plus "@" *)
+Theorem partial_name_vs_git : forall s, is_ok (ref_name_partial s) = git_check s true || standalone_at s.
+Proof. exact L_partial_name_vs_git. Qed.
+
+(* ---- full names: git's verdict, one-level names by git's one-level rule (A-Z and '_' only);
+        holds without exception ("@" is not upper case) -------------------------------------------- *)
 Theorem full_name_is_git : forall s, is_ok (ref_name s) = git_full_name s.
 Proof. exact L_full_name_is_git. Qed.
 
@@ -25,8 +41,9 @@ Theorem full_name_cases : forall s,
   (has_slash s = false -> is_ok (ref_name s) = git_check s true && one_level_safe s).
 Proof. exact L_full_name_cases. Qed.
 
-(* tag names (gix_validate::tag::name) differ from partial reference names only in the name "@" *)
-Theorem tag_name_is_git_or_at : forall s, is_ok (tag_name s) = git_check s true || bytes_eqb s [at_].
+(* tag names (gix_validate::tag::name): what git accepts with --allow-onelevel, plus "@"
+   (git itself allows refs/tags/@) *)
+Theorem tag_name_is_git_or_at : forall s, is_ok (tag_name s) = git_check s true || standalone_at s.
 Proof. exact L_tag_name_is_git_or_at. Qed.
 
 (* the validators never panic and never loop, and a successful validation returns its input unchanged *)
@@ -36,15 +53,25 @@ Theorem validators_total : forall s,
   (tag_name s <> Panic /\ tag_name s <> OutOfFuel /\ forall o, tag_name s = Ok o -> o = s).
 Proof. exact L_validators_total. Qed.
 
-(* converting ANY byte string into a partial name succeeds (no panic: the slices, the index
+(* ---- sanitising --------------------------------------------------------------------------------
+   converting ANY byte string into a partial name succeeds (no panic: the slices, the index
    operations on the output buffer and the two `expect`s are all modelled), and the result passes
-   name_partial — equivalently `git check-ref-format --allow-onelevel` *)
+   validation (name_partial) *)
 Theorem sanitize_valid : forall s, exists o,
-  ref_sanitize s = Ok o /\ is_ok (ref_name_partial o) = true /\ git_check o true = true.
+  ref_sanitize s = Ok o /\ is_ok (ref_name_partial o) = true.
 Proof. exact L_sanitize_valid. Qed.
 
 Theorem sanitize_total : forall s, ref_sanitize s <> Panic /\ ref_sanitize s <> OutOfFuel.
 Proof. exact L_sanitize_total. Qed.
+
+(* measured against git instead of gix's own validator the same known class shows: "@/" -> "@" *)
+Definition sanitize_git_full_statement : Prop :=
+  forall s o, ref_sanitize s = Ok o -> git_check o true = true.
+Theorem sanitize_git_refuted : exists s o, ref_sanitize s = Ok o /\ git_check o true = false.
+Proof. exact L_sanitize_git_refuted. Qed.
+Theorem sanitize_git_except_known : forall s o, ref_sanitize s = Ok o -> standalone_at o = false ->
+  git_check o true = true.
+Proof. exact L_sanitize_git_except_known. Qed.
 
 (* a name that passes name_partial is returned unchanged; hence sanitising twice changes nothing more *)
 Theorem sanitize_keeps_valid : forall s, is_ok (ref_name_partial s) = true -> ref_sanitize s = Ok s.
@@ -53,7 +80,7 @@ Proof. exact L_sanitize_keeps_valid. Qed.
 Theorem sanitize_idempotent : forall s o, ref_sanitize s = Ok o -> ref_sanitize o = Ok o.
 Proof. exact L_sanitize_idempotent. Qed.
 
-(* PartialName::join(base, component) is the partial-name check of base/component *)
+(* PartialName::join(base, component) is the partial-name check of base/component; never "@" *)
 Theorem join_is_git : forall base comp,
   is_ok (partial_join base comp) = git_check (base ++ slash :: comp) true.
 Proof. exact L_join_is_git. Qed.
@@ -63,18 +90,20 @@ Theorem spec_total : forall s allow, existsb (beqb x00) s = false ->
   exists b, check_refname_format s allow = Ok b.
 Proof. exact ProofsGit.check_refname_format_total. Qed.
 
-(* non-vacuity / sanity: accepted and rejected names, sanitised witnesses of the two fixed defects *)
+(* non-vacuity / sanity *)
 Example ex_accept : is_ok (ref_name (bs "refs/heads/main")) = true /\ is_ok (ref_name (bs "FETCH_HEAD")) = true
   /\ is_ok (ref_name (bs "main")) = false /\ is_ok (ref_name_partial (bs "main")) = true
-  /\ is_ok (ref_name_partial (bs "@")) = false /\ is_ok (tag_name (bs "@")) = true
+  /\ is_ok (ref_name_partial (bs "@")) = true /\ git_check (bs "@") true = false /\ is_ok (ref_name (bs "@")) = false
   /\ is_ok (ref_name_partial (bs "a.lock/b")) = false /\ has_slash (bs "a/b") = true
-  /\ has_slash (bs "HEAD") = false /\ existsb (beqb x00) (bs "refs/heads/main") = false.
+  /\ has_slash (bs "HEAD") = false /\ existsb (beqb x00) (bs "refs/heads/main") = false
+  /\ standalone_at (bs "refs/heads/@") = false /\ standalone_at (bs "@") = true.
 Proof. vm_compute. repeat split. Qed.
 
 Example ex_keeps : is_ok (ref_name_partial (bs "refs/heads/x@y.lck")) = true
-  /\ ref_sanitize (bs "a@{b") = Ok (bs "a@-b") /\ ref_sanitize (bs "a@-b") = Ok (bs "a@-b").
+  /\ ref_sanitize (bs "a@{b") = Ok (bs "a@-b") /\ ref_sanitize (bs "a@-b") = Ok (bs "a@-b")
+  /\ standalone_at (bs "a@-b") = false.
 Proof. vm_compute. repeat split. Qed.
 
 Example ex_sanitize : ref_sanitize (bs "/") = Ok (bs "-") /\ ref_sanitize (bs ".lock.lock") = Ok (bs "-")
-  /\ ref_sanitize (bs "@/") = Ok (bs "-") /\ ref_sanitize (bs "refs//heads/a b.lock/.x.") = Ok (bs "refs/heads/a-b/-x-").
+  /\ ref_sanitize (bs "@/") = Ok (bs "@") /\ ref_sanitize (bs "refs//heads/a b.lock/.x.") = Ok (bs "refs/heads/a-b/-x-").
 Proof. vm_compute. repeat split. Qed.
